@@ -45,6 +45,26 @@ def assignments(k, tier):
     return allp if tier == "thorough" else allp[::24]
 
 
+NONE_STYLES = ("", " ", "None", "none", None)
+
+
+def visible(line):
+    a = line.get_alpha()
+    if not line.get_visible() or (a is not None and a <= 0):
+        return False
+    stroke = line.get_linestyle() not in NONE_STYLES and \
+        line.get_linewidth() > 0
+    marks = line.get_marker() not in NONE_STYLES and line.get_markersize() > 0
+    return bool(stroke or marks)
+
+
+def all_styles(line):
+    return (str([round(float(v), 9) for v in line.get_ydata()]),) + tuple(
+        str(line_style(line, p)) for p in (
+            "color", "marker", "linestyle", "linewidth", "markersize")) + (
+        str(line.get_alpha()), str(line.get_markeredgecolor()))
+
+
 def cases(tier, seed):
     j = 0
     shapes = {1: [(3,), (2,)], 2: [(2, 3), (3, 2), (1, 2)],
@@ -72,7 +92,10 @@ def cases(tier, seed):
                            # in (vs. the dataset's own dimension order)
                            "stored": core.pick(hk + ["stored"], 3),
                            "unmapped": core.pick(hk + ["unm"], 7) == 0
-                           and k >= 2}
+                           and k >= 2,
+                           # the same call made again after other plots
+                           # were drawn in this process
+                           "prior": core.pick(hk + ["prior"], 4) == 0}
     # fused dimensions
     for p, nanp in itertools.product(("color", "marker", "linestyle", "row"),
                                      ("none", "point")):
@@ -232,11 +255,52 @@ def check_lines(case):
             orders[d0] = vals
     if case["join"]:
         kw["join_across_missing"] = True
+    first_styles = None
+    if case.get("prior"):
+        import matplotlib.pyplot as plt
+        # unrelated plots (everything mapped with a legend; constant
+        # styles), this plot, the unrelated ones in another order, then this
+        # plot again: it is judged, and must look the same both times
+        # (whatever was drawn before this case started, both reference points
+        # are reached through a fixed sequence of calls)
+        pds, _ = make_ds((2, 2), [0, 1], "none")
+        others = ({"color": "d0", "marker": "d1"},
+                  {"linestyle": "d0", "hue": "d1"},
+                  {"row": "d0", "color": "red", "linewidth": 4.0,
+                   "marker": "s", "markersize": 11.0, "linestyle": ":"})
+        for pkw in others:
+            _, _, err = plot(key, pds, "x", "y", **pkw)
+            if err:
+                return fin(case, [err])
+        fig, axs, err = plot(key, ds, "x", "y", **kw)
+        if err:
+            return fin(case, [err])
+        first_styles = sorted(all_styles(l) for ax in axs.flat
+                              for l in ax.lines)
+        for pkw in others[::-1]:
+            _, _, err = plot(key, pds, "x", "y", **pkw)
+            if err:
+                return fin(case, [err])
+        plt.close("all")
     fig, axs, err = plot(key, ds, "x", "y", **kw)
     if err:
         return fin(case, [err])
     if not ds.identical(before):
         vio.append((key("dataset-modified"), "plotting changed the dataset"))
+    if first_styles is not None:
+        again = sorted(all_styles(l) for ax in axs.flat for l in ax.lines)
+        if again != first_styles:
+            vio.append((key("second-call"), "the same plot drawn again after "
+                        "other plots has other line styles: %r vs %r" % (
+                            [a for a in again if a not in first_styles][:2],
+                            [a for a in first_styles if a not in again][:2])))
+    for ax in axs.flat:
+        for line in ax.lines:
+            if not visible(line):
+                vio.append((key("invisible"), "a line is drawn with neither "
+                            "a visible stroke nor visible markers: %r"
+                            % (all_styles(line),)))
+                break
     yv = before["y"].transpose(*(dims + ["x"])).values
     # which coordinates of a *mapped* dimension survive dropna(how='all')
     alive = {}
@@ -645,6 +709,10 @@ def check_heat(case):
             flat = [(round(float(want[a, b]), 6), tuple(np.round(cols[a, b], 6)))
                     for a, b in itertools.product(range(ny), range(nx))
                     if not nanc[a, b]]
+            if any(not all(0.0 <= x <= 1.0 for x in c) for _, c in flat):
+                vio.append((key("colours"), "a cell that has data is drawn "
+                            "in a colour that is not a colour: %r" % flat[:3]))
+                continue
             # the same value must get the same colour in every panel: compare
             # with the first panel's mapping
             for v, c in flat:
